@@ -45,7 +45,7 @@ PROFILES = {
     'queue': {'p_queue': 1.0, 'p_enc': 0.3},
     'mtu': {'p_mtu': 1.0, 'big_values': True, 'p_notify': 0.7},
     'cccd': {'p_notify': 0.9, 'min_chars': 3, 'p_prio': 0.5, 'p_queue': 0.5, 'p_cccd_cb': 0.8, 'max_cccd': 9},
-    'notify': {'p_notify': 0.9, 'min_chars': 2, 'p_prio': 0.7, 'max_cccd': 8},
+    'notify': {'p_notify': 0.9, 'min_chars': 2, 'p_prio': 0.7, 'max_cccd': 8, 'p_dup_uuid': 0.3, 'min_services': 2},
     'adv': {'adv': True},
     'nogap': {'p_nogap': 1.0},
 }
@@ -55,7 +55,7 @@ MTUS = [23, 24, 27, 48, 65, 158, 247, 300]
 
 def gen_spec(r, profile='default', exclude=()):
     P = dict(p_fixed_svc=0.3, p_fixed_chr=0.25, p_include=0.2, p_secondary=0.25, p_enc=0.4, p_queue=0.5, p_mtu=0.6,
-             p_notify=0.5, p_prio=0.3, p_nogap=0.3, p_cccd_cb=0.3, min_services=1, min_chars=0, big_values=False, adv=False, max_cccd=6)
+             p_notify=0.5, p_prio=0.3, p_nogap=0.3, p_cccd_cb=0.3, min_services=1, min_chars=0, big_values=False, adv=False, max_cccd=6, p_dup_uuid=0.1)
     P.update(PROFILES.get(profile, {}))
     no_mixed_uuid = 'mixed-uuid' in exclude
 
@@ -99,6 +99,7 @@ def gen_spec(r, profile='default', exclude=()):
 
     var_ctr = [0]
     cccd_ctr = [0]
+    earlier_notifying = []
     for si in range(nsvc):
         is128 = (r.random() < 0.4 or all128) and not all16
         svc = {
@@ -145,6 +146,11 @@ def gen_spec(r, profile='default', exclude=()):
                 cccd_ctr[0] += 1
                 c['notify'] = r.random() < 0.7
                 c['indicate'] = r.random() < 0.5 or not c['notify']
+                # the same characteristic UUID in two services: "if multiple characteristics exist with the given UUID, the first
+                # characteristic will be notified" (server::notify<UUID>() documentation)
+                if earlier_notifying and r.random() < P['p_dup_uuid'] and not no_mixed_uuid:
+                    c['uuid'] = list(r.choice(earlier_notifying))
+                    c['dup'] = True
             if vk in ('var', 'scalar', 'constvar', 'hblob', 'hraw') and r.random() < 0.2 and 'noread-handler' not in exclude:
                 c['no_read'] = True
             elif vk in ('var', 'scalar', 'constvar') and r.random() < 0.2:
@@ -166,6 +172,7 @@ def gen_spec(r, profile='default', exclude=()):
             if r.random() < P['p_fixed_chr']:
                 c['handles'] = r.choice(['one', 'three', 'three0'])
             svc['chars'].append(c)
+        earlier_notifying += [x['uuid'] for x in svc['chars'] if (x['notify'] or x['indicate']) and not x.get('dup')]
         with_cccd = [i for i, c in enumerate(svc['chars']) if c['notify'] or c['indicate']]
         if with_cccd and r.random() < P['p_prio']:
             svc['prio'] = r.sample(with_cccd, r.randint(1, len(with_cccd)))
@@ -189,7 +196,8 @@ def gen_spec(r, profile='default', exclude=()):
     h = 1
     for s in services:
         if s['fixed']:
-            h += r.choice([0, 1, 2, 5, 16, 0x100 - (h % 0x100)])
+            # also: start a few handles in front of a multiple of 0x100, so that the service spans the boundary (16 bit handle arithmetic)
+            h += r.choice([0, 1, 2, 5, 16, 0x100 - (h % 0x100), 0x100 - (h % 0x100) - r.choice([1, 2, 3]) if (h % 0x100) < 0xf0 else 0])
             s['handle'] = h
         else:
             s['handle'] = 0
@@ -421,14 +429,17 @@ def emit_cpp(spec, order_seed=0):
                 uu = cpp_uuid(c['uuid'], 'characteristic')
                 byvar = vk in ('var', 'scalar', 'constvar')
                 lines = ['            case %d:' % chr_index]
+                dup = bool(c.get('dup'))   # a later characteristic with the UUID of an earlier one can not be named by UUID
                 if c['notify']:
                     if byvar:
                         lines.append('                if ( mode == 0 ) return srv->notify( var%d );' % k)
-                    lines.append('                if ( mode == 1 ) return srv->template notify< %s >();' % uu)
+                    if not dup:
+                        lines.append('                if ( mode == 1 ) return srv->template notify< %s >();' % uu)
                 if c['indicate']:
                     if byvar:
                         lines.append('                if ( mode == 2 ) return srv->indicate( var%d );' % k)
-                    lines.append('                if ( mode == 3 ) return srv->template indicate< %s >();' % uu)
+                    if not dup:
+                        lines.append('                if ( mode == 3 ) return srv->template indicate< %s >();' % uu)
                 lines.append('                return -1;')
                 notify_cases.append('\n'.join(lines))
             chr_index += 1
